@@ -246,6 +246,8 @@ def build_world() -> World:
        "bounded:StateNode.__init__ gives the child stored under key k the key k")
     ax("D-initial-not-history", "forall[Node, str](lambda n, k: implies(n != None and n.initial == k and k in n.states, n.states[k].type != 'history'), lambda n, k: n.states[k])",
        "bounded:StateNode._parse_initial rejects an explicit `initial` that names a history pseudo-state (fix: section 6) and never infers one")
+    ax("D-history-leaf", "forall[Node](lambda c: implies(c != None and c.parent != None, c.parent.type != 'history'), lambda c: c.parent)",
+       "bounded:a history pseudo-state has no child states (StateNode.__init__ builds children only for compound / parallel configs)")
     ax("D-root-type", "root.type != 'history'", "bounded:MachineNode is never a history pseudo-state")
 
     # child_toward(d, t): the child of d on the path down to t (defined when t is a proper descendant of d)
